@@ -494,5 +494,113 @@ theorem tetra_core (a b c d : V) (o0 o1 o2 o3 : Bool) (orient : Nat) (pa pb pc p
       (if o2 then 4 else 0) + (if o3 then 8 else 0))) % 16 = _
     cases o0 <;> cases o1 <;> cases o2 <;> cases o3 <;> simp <;> omega
 
+/-! ### instantiation for the two consistent orientations -/
+
+theorem planes_pos (a b c d : V) (hD : 0 < V3.dot (d - a) (V3.cross (b - a) (c - a))) :
+    originOutsideOfTetrahedronPlanes a b c d =
+      ((decide (-EPS ≤ V3.dot a (V3.cross (b - a) (c - a))),
+        decide (-EPS ≤ V3.dot a (V3.cross (c - a) (d - a))),
+        decide (-EPS ≤ V3.dot a (V3.cross (d - a) (b - a))),
+        decide (-EPS ≤ V3.dot b (V3.cross (d - b) (c - b)))), 0) := by
+  obtain ⟨e1, e2, e3⟩ := signd_eq a b c d
+  simp only [originOutsideOfTetrahedronPlanes, e1, e2, e3, hD, and_self, if_true]
+
+theorem planes_neg (a b c d : V) (hD : V3.dot (d - a) (V3.cross (b - a) (c - a)) < 0) :
+    originOutsideOfTetrahedronPlanes a b c d =
+      ((decide (V3.dot a (V3.cross (b - a) (c - a)) ≤ EPS),
+        decide (V3.dot a (V3.cross (c - a) (d - a)) ≤ EPS),
+        decide (V3.dot a (V3.cross (d - a) (b - a)) ≤ EPS),
+        decide (V3.dot b (V3.cross (d - b) (c - b)) ≤ EPS)), 1) := by
+  obtain ⟨e1, e2, e3⟩ := signd_eq a b c d
+  have hn : ¬ 0 < V3.dot (d - a) (V3.cross (b - a) (c - a)) := not_lt.mpr hD.le
+  simp only [originOutsideOfTetrahedronPlanes, e1, e2, e3, hD, hn, and_self, if_true, if_false]
+
+theorem planes_flat (a b c d : V) (hD : V3.dot (d - a) (V3.cross (b - a) (c - a)) = 0) :
+    originOutsideOfTetrahedronPlanes a b c d = ((true, true, true, true), 2) := by
+  obtain ⟨e1, e2, e3⟩ := signd_eq a b c d
+  simp only [originOutsideOfTetrahedronPlanes, e1, e2, e3, hD, lt_irrefl, and_self, if_false]
+
+/-- **tetra_spec, positive orientation** (`D = det[ab, ac, ad] > 0`).  Excluded bands, by name:
+`hband` (no plane value in `[−ε, 0)`), `hfaces` (no face with `|n|² < ε²`), `hbound`
+(`|a|², |b|² < MAX_FLOAT`). -/
+theorem closestPointTetrahedron_spec_pos (a b c d : V)
+    (hD : 0 < V3.dot (d - a) (V3.cross (b - a) (c - a)))
+    (hband : (-EPS ≤ V3.dot a (V3.cross (b - a) (c - a)) → 0 ≤ V3.dot a (V3.cross (b - a) (c - a))) ∧
+      (-EPS ≤ V3.dot a (V3.cross (c - a) (d - a)) → 0 ≤ V3.dot a (V3.cross (c - a) (d - a))) ∧
+      (-EPS ≤ V3.dot a (V3.cross (d - a) (b - a)) → 0 ≤ V3.dot a (V3.cross (d - a) (b - a))) ∧
+      (-EPS ≤ V3.dot b (V3.cross (d - b) (c - b)) → 0 ≤ V3.dot b (V3.cross (d - b) (c - b))))
+    (hfaces : ¬ V3.dot (triNormal a b c) (triNormal a b c) < EPS2 ∧
+      ¬ V3.dot (triNormal a c d) (triNormal a c d) < EPS2 ∧
+      ¬ V3.dot (triNormal a d b) (triNormal a d b) < EPS2 ∧
+      ¬ V3.dot (triNormal b d c) (triNormal b d c) < EPS2)
+    (hbound : V3.dot a a < MAXF ∧ V3.dot b b < MAXF) :
+    ∃ r, closestPointTetrahedron a b c d = .ok r ∧ IsMinNorm (hullSet [a, b, c, d]) r.pt ∧
+      hullSet (selectBits r.set [a, b, c, d]) r.pt := by
+  obtain ⟨hsum, hzero⟩ := bary_origin a b c d (ne_of_gt hD)
+  have hE := EPS_pos
+  obtain ⟨r, h1, h2, h3, _⟩ := tetra_core a b c d _ _ _ _ 0 _ _ _ _ (planes_pos a b c d hD) hsum hzero
+    (by
+      rw [decide_eq_true_iff, div_le_iff₀ hD]
+      constructor
+      · intro h; have := hband.1 h; linarith
+      · intro h; linarith)
+    (by
+      rw [decide_eq_true_iff, div_le_iff₀ hD]
+      constructor
+      · intro h; have := hband.2.1 h; linarith
+      · intro h; linarith)
+    (by
+      rw [decide_eq_true_iff, div_le_iff₀ hD]
+      constructor
+      · intro h; have := hband.2.2.1 h; linarith
+      · intro h; linarith)
+    (by
+      rw [decide_eq_true_iff, div_le_iff₀ hD]
+      constructor
+      · intro h; have := hband.2.2.2 h; linarith
+      · intro h; linarith)
+    hfaces.1 hfaces.2.1 hfaces.2.2.1 hfaces.2.2.2 hbound.1 hbound.2
+  exact ⟨r, h1, h2, h3⟩
+
+/-- **tetra_spec, negative orientation** (`D < 0`): bands `(0, ε]` excluded. -/
+theorem closestPointTetrahedron_spec_neg (a b c d : V)
+    (hD : V3.dot (d - a) (V3.cross (b - a) (c - a)) < 0)
+    (hband : (V3.dot a (V3.cross (b - a) (c - a)) ≤ EPS → V3.dot a (V3.cross (b - a) (c - a)) ≤ 0) ∧
+      (V3.dot a (V3.cross (c - a) (d - a)) ≤ EPS → V3.dot a (V3.cross (c - a) (d - a)) ≤ 0) ∧
+      (V3.dot a (V3.cross (d - a) (b - a)) ≤ EPS → V3.dot a (V3.cross (d - a) (b - a)) ≤ 0) ∧
+      (V3.dot b (V3.cross (d - b) (c - b)) ≤ EPS → V3.dot b (V3.cross (d - b) (c - b)) ≤ 0))
+    (hfaces : ¬ V3.dot (triNormal a b c) (triNormal a b c) < EPS2 ∧
+      ¬ V3.dot (triNormal a c d) (triNormal a c d) < EPS2 ∧
+      ¬ V3.dot (triNormal a d b) (triNormal a d b) < EPS2 ∧
+      ¬ V3.dot (triNormal b d c) (triNormal b d c) < EPS2)
+    (hbound : V3.dot a a < MAXF ∧ V3.dot b b < MAXF) :
+    ∃ r, closestPointTetrahedron a b c d = .ok r ∧ IsMinNorm (hullSet [a, b, c, d]) r.pt ∧
+      hullSet (selectBits r.set [a, b, c, d]) r.pt := by
+  obtain ⟨hsum, hzero⟩ := bary_origin a b c d (ne_of_lt hD)
+  have hE := EPS_pos
+  obtain ⟨r, h1, h2, h3, _⟩ := tetra_core a b c d _ _ _ _ 1 _ _ _ _ (planes_neg a b c d hD) hsum hzero
+    (by
+      rw [decide_eq_true_iff, div_le_iff_of_neg hD]
+      constructor
+      · intro h; have := hband.1 h; linarith
+      · intro h; linarith)
+    (by
+      rw [decide_eq_true_iff, div_le_iff_of_neg hD]
+      constructor
+      · intro h; have := hband.2.1 h; linarith
+      · intro h; linarith)
+    (by
+      rw [decide_eq_true_iff, div_le_iff_of_neg hD]
+      constructor
+      · intro h; have := hband.2.2.1 h; linarith
+      · intro h; linarith)
+    (by
+      rw [decide_eq_true_iff, div_le_iff_of_neg hD]
+      constructor
+      · intro h; have := hband.2.2.2 h; linarith
+      · intro h; linarith)
+    hfaces.1 hfaces.2.1 hfaces.2.2.1 hfaces.2.2.2 hbound.1 hbound.2
+  exact ⟨r, h1, h2, h3⟩
+
 end Simplex
 end D3
